@@ -221,6 +221,19 @@ Definition load_currency_data (pf : pyfloat_t) (c : config) (fs : filesys)
     | _ => POk (currency_data, false, snd r)              (* `if not data`: None or empty *)
     end).
 
+(* states in which the file gives nothing: anything but a readable, decodable regular file — and,
+   for the currency table, also a file whose text does not parse to a non-empty table *)
+Definition config_unusable (s : fstate) : Prop :=
+  match s with Bytes true _ => False | _ => True end.
+Definition currency_unusable (pf : pyfloat_t) (s : fstate) : Prop :=
+  match s with
+  | Bytes true text => match parse_currency_data pf (universal_newlines text) with
+                       | PTable (_ :: _) => False
+                       | _ => True
+                       end
+  | _ => True
+  end.
+
 (* ------------------------------------------------------------------ start-up *)
 Record started := {
   st_cfg : config;                 (* CONFIG when evaluation begins *)
